@@ -474,6 +474,7 @@ func (db *DB) SetReadOnly() error {
 	select {
 	case db.writeLockC <- struct{}{}:
 		db.compWriteLocking = true
+		verifAt("s.readonly.locked")
 	case err := <-db.compPerErrC:
 		return err
 	case <-db.closeC:
